@@ -121,10 +121,14 @@ class Gen:
         if k == 12:
             self.features.add("subscript")
             return "m[%s, %s]" % (self.pick(["0", "1"]), self.pick(["0", "1"]))
-        if k == 13 and self.named < 1 and not self.targets:
+        if k == 13 and self.named < 3 and not self.targets:
             self.named += 1
             self.features.add("named-expr")
-            return "(w%d := %s)" % (self.named, self.expr("int", depth - 1))
+            # the first assignment expression binds a fresh name; later ones may RE-BIND it, or a parameter
+            target = "w1" if self.named == 1 else self.pick(["w1", "w%d" % self.named, "x", "n"])
+            if target in ("w1", "x", "n") and self.named > 1:
+                self.features.add("named-expr-rebinds")
+            return "(%s := %s)" % (target, self.expr("int", depth - 1))
         if k == 14:
             return "%s.get(%s)" % (self.expr_obj_safe(depth - 1), self.expr("int", depth - 1))
         return "kw(b=%s)" % self.expr("int", depth - 1)
